@@ -19,10 +19,10 @@ def model():
 
 
 def machine_known_spin(opts, mt):
-    wf = model().ask("wf", opts, mt)
-    if "noSpin=true" in wf:
+    wf = model().ask("wf", opts, mt, timeout=60)
+    if "noSpin=true" in wf or wf == "timeout":
         return False
-    paths = model().ask("spin", opts, mt)
+    paths = model().ask("spin", opts, mt, timeout=60)
     return "ask:full:" in paths and "=true" in paths
 
 
@@ -65,8 +65,10 @@ class Case:
     def run_c(self, ops, timeout=20):
         return self.bin.run(ops, timeout=timeout)
 
-    def run_model(self, ops):
-        r = model().ask("rt", self.opts, self.mt, ";".join(ops))
+    def run_model(self, ops, timeout=120):
+        r = model().ask("rt", self.opts, self.mt, ";".join(ops), timeout=timeout)
+        if r == "timeout":
+            return ["model-timeout"]
         return r.split(" ## ") if r else []
 
     def known_spin(self):
